@@ -1,4 +1,5 @@
 import ProductMD.Proofs.ImagesBytes
+import ProductMD.Proofs.JsonRoundTrip
 /-!
 # C02 — image manifests survive a write/read cycle unchanged
 
@@ -432,5 +433,71 @@ example : let w : ImgState := { compose := wCompose, cells := [(L "Server", [(L 
     (dumps w).2 = (match (serialize w).2 with
     | .ok doc => (match deserialize (PyVal.canon doc) with | .ok m' => (dumps m').2 | .error e => .error e)
     | .error e => .error e) := by decide +kernel
+
+end PM
+
+/-! ## bytes through the modelled JSON parser (builder jsonparse)
+
+`JsonParse.parseWith lim` (Model/JsonParse.lean) models CPython's `json.loads` (tied to the real one by
+`harness/json_diff.py`); `Proofs/JsonRoundTrip.lean` proves `parseWith lim (JsonText.dumps doc) = .ok (PyVal.canon doc)`:
+the parser returns every dict in the order of the text, i.e. in SORTED key order, while the writer's document is in
+insertion order (`payload = {images, compose}`, image fields in attribute order).  So the hypothesis `hjson` of
+`C02_bytes` (`parse (dumps doc) = .ok doc`) is not what CPython does (`C02_hjson_witness`); and the reader files images
+in document order, so the re-read STATE after a real parse is a permutation of the one `C02_bytes` speaks about.
+With the modelled parser the byte statement needs instead `hord`: loading the key-sorted document and dumping gives the
+same text as loading the document as written and dumping (a statement about the library model only; it holds by
+evaluation on the examples, cf. `C08_perm_images_bytes` for the writer half; a general proof is open) — plus the
+explicit representability of the written document. -/
+namespace PM
+open PM.Img PM.PyOps PM.Spec
+
+/-- on a one-image manifest the modelled CPython parser returns the key-sorted document, which is NOT the document
+the writer built -/
+theorem C02_hjson_witness :
+    (match (serialize { compose := wCompose, cells := [(L "Server", [(L "x86_64", [(0, wC)])])] }).2 with
+     | .ok doc => (match JsonParse.parse (JsonText.dumps doc) with
+                   | .ok w => PyVal.beq w (PyVal.canon doc) && !(PyVal.beq w doc)
+                   | .error _ => false)
+     | .error _ => false) = true := by decide +kernel
+
+/-- **C02_bytes, parser modelled.**  Same conclusion as `C02_bytes` with `parse := JsonParse.parseWith lim`. -/
+theorem C02_bytes_parsed (lim : Nat) (m : ImgState)
+    (hc : m.compose.validate = .ok ())
+    (hi : ∀ i ∈ m.cells.all, i.validate = .ok () ∧ ProperInts i)
+    (ha : ∀ t ∈ triples m.cells, Gen.RPM_ARCHES.contains t.2.1 = true ∧ refusedArches.contains t.2.1 = false)
+    (hu : Uniq m.cells) (hd : DistinctPaths m.cells)
+    (hrep : ∀ doc, (serialize m).2 = .ok doc → Mf.jsonRep doc = true ∧ JsonParse.numsOk lim doc = true)
+    (hord : ∀ doc, (serialize m).2 = .ok doc →
+      reloadDumps (fun _ => .ok (PyVal.canon doc)) (JsonText.dumps doc) = reloadDumps (fun _ => .ok doc) (JsonText.dumps doc))
+    (t : Str) (ht : (dumps m).2 = .ok t) : reloadDumps (JsonParse.parseWith lim) t = .ok t := by
+  obtain ⟨doc, m', hs, _, _, _, _⟩ := C02_readback_partial m hc hi ha hu
+  have h1 := C02_bytes (fun _ => .ok doc) m hc hi ha hu hd (fun d hd' => by rw [hs] at hd'; cases hd'; rfl) t ht
+  -- the text is the printed document
+  have htext : t = JsonText.dumps doc := by
+    have ht' := ht
+    unfold dumps at ht'
+    rw [C02_images_no_validators] at ht'
+    simp only at ht'
+    cases hsx : serialize m with
+    | mk sx r =>
+      rw [hsx] at hs ht'
+      simp only at hs
+      subst hs
+      simp only at ht'
+      split at ht'
+      · cases ht'; rfl
+      · cases ht'
+  subst htext
+  rw [← hord doc hs] at h1
+  have hp := JsonParse.parseWith_dumps lim doc (hrep doc hs).1 (hrep doc hs).2
+  unfold reloadDumps at h1 ⊢
+  rw [hp]
+  exact h1
+
+/-- non-vacuity: `hrep` and `hord` hold of the example manifest by evaluation (default digit limit) -/
+example : (match (serialize wGood).2 with
+    | .ok doc => Mf.jsonRep doc && JsonParse.numsOk JsonParse.defaultLimit doc
+        && (reloadDumps (fun _ => .ok (PyVal.canon doc)) (JsonText.dumps doc) == reloadDumps (fun _ => .ok doc) (JsonText.dumps doc))
+    | .error _ => false) = true := by decide +kernel
 
 end PM
